@@ -90,6 +90,10 @@ var c19UserFiles = map[string]string{
 	"README.md":       "# user notes\n",
 	"sub/keep.txt":    "keep me\n",
 	"handler_user.go": "package gen\n\n// a file whose name merely resembles a generated one\n",
+	// dot files in the style of goag's own config: the user's, not goag's
+	".goag.yaml":  "cors:\n  enable: true\n",
+	".goag.local": "scratch notes\n",
+	".gitignore":  "*.tmp\n",
 }
 
 func C19(r *core.Run) int {
@@ -105,11 +109,14 @@ func C19(r *core.Run) int {
 		_ = os.WriteFile(filepath.Join(specDir, k, "openapi.json"), bs, 0o644)
 	}
 	args := func(inv c19Inv, out string) []string {
-		a := []string{"--file", filepath.Join(specDir, inv.Spec, "openapi.json"), "--out", out, "--package", inv.Package,
+		a := []string{"--file", filepath.Join(specDir, inv.Spec, "openapi.json"), "--out", out,
 			fmt.Sprintf("--client=%v", inv.Client), fmt.Sprintf("--api-handler=%v", inv.API), fmt.Sprintf("--donotedit=%v", inv.DNE),
 			"--config", filepath.Join(specDir, inv.Spec, ".goag.yaml")}
 		if inv.Base != "" {
 			a = append(a, "--basepath", inv.Base)
+		}
+		if inv.Package != "" {
+			a = append(a, "--package", inv.Package) // "" = flag omitted: the CLI's default package name
 		}
 		return a
 	}
@@ -161,8 +168,11 @@ func C19(r *core.Run) int {
 		var h []c19Inv
 		for j := 0; j < n; j++ {
 			inv := c19Inv{Spec: specKeys[rng.Intn(len(specKeys))], Client: rng.Intn(2) == 0, API: rng.Intn(4) != 0, DNE: rng.Intn(2) == 0, Package: "gen"}
-			if rng.Intn(6) == 0 {
+			switch rng.Intn(8) {
+			case 0:
 				inv.Package = "other"
+			case 1:
+				inv.Package = "" // --package not given
 			}
 			inv.Base = []string{"", "", "/v1", "/v2"}[rng.Intn(4)]
 			h = append(h, inv)
